@@ -1,5 +1,5 @@
 /-
-  C01: hypotheses of the headline theorems (definitions) and the glue between them and the general
+  C01: the glue between the headline theorems and the general
   refinement theorem `eval_refines` (which is parametric in the date projections).
 -/
 import CedarGoProofs.Lemmas.C01RefineEval
@@ -7,51 +7,19 @@ namespace CedarGo
 open Scalars Spec
 
 namespace C01L
-/-- The known defect is not triggered at this node: if the node is `toDate(a)` / `toTime(a)` and `a`
-    evaluates (in the Go evaluator) to a datetime, that datetime is non-negative or day-aligned. -/
-def toDateSafeNode (env : Env) : Expr → Prop
-  | .call fn [a] => (fn = "toDate" ∨ fn = "toTime") →
-      ∀ t, eval a env = .ok (.datetime t) → 0 ≤ t ∨ t % 86400000 = 0
-  | _ => True
-
-/-- no `toDate` / `toTime` call anywhere in `e` has an argument that evaluates, in `env`, to a negative
-    datetime that is not a multiple of one day (calls in branches that are not taken are included) -/
-def _root_.CedarGo.Expr.ToDateSafe (e : Expr) (env : Env) : Prop := e.All (toDateSafeNode env)
-
-def noDateCallNode : Expr → Prop
-  | .call fn _ => fn ≠ "toDate" ∧ fn ≠ "toTime"
-  | _ => True
-
-/-- syntactic sufficient condition: the expression does not mention `toDate` / `toTime` at all -/
-def _root_.CedarGo.Expr.NoToDateToTime (e : Expr) : Prop := e.All noDateCallNode
-
 theorem dateOK_goDates (env : Env) (x : Expr) : dateOK goDates env x := by
   unfold dateOK
   split
   · intro t _ _; exact ⟨fun _ => rfl, fun _ => rfl⟩
   · trivial
 
-theorem dateOK_of_safe (env : Env) (x : Expr) (h : toDateSafeNode env x) : dateOK cedarDates env x := by
+/-- the specification's floor functions ARE what the (repaired) Go code computes, at every node:
+    no side condition on the datetimes `toDate` / `toTime` are applied to -/
+theorem dateOK_cedarDates (env : Env) (x : Expr) : dateOK cedarDates env x := by
   unfold dateOK
-  unfold toDateSafeNode at h
   split
-  · rename_i fn a
-    simp only at h
-    intro t ht hin
-    refine ⟨fun hf => ?_, fun hf => ?_⟩
-    · exact ((goToDate_eq_iff t hin).mpr (h (.inl hf) t ht)).symm
-    · exact ((goToTime_eq_iff t).mpr (h (.inr hf) t ht)).symm
-  · trivial
-
-theorem safe_of_noDateCall (env : Env) (x : Expr) (h : noDateCallNode x) : toDateSafeNode env x := by
-  unfold toDateSafeNode
-  split
-  · rename_i fn a
-    simp only [noDateCallNode] at h
-    intro hf
-    rcases hf with hf | hf
-    · exact absurd hf h.1
-    · exact absurd hf h.2
+  · intro t _ hin
+    exact ⟨fun _ => (goToDate_eq t hin).symm, fun _ => (goToTime_eq t).symm⟩
   · trivial
 
 theorem nodeOK_of (D : DateFns) (env : Env) (e : Expr) (hl : e.LitsWF) (hp : e.PatternsWF)
@@ -65,10 +33,10 @@ theorem eval_refines_goDates (e : Expr) (env : Env) (hwf : env.WF) (hl : e.LitsW
   eval_refines goDates e env hwf
     (nodeOK_of goDates env e hl hp (Expr.All_mono (fun x _ => dateOK_goDates env x) e hl))
 
-theorem eval_refines_spec (e : Expr) (env : Env) (hwf : env.WF) (hl : e.LitsWF) (hp : e.PatternsWF)
-    (hd : e.ToDateSafe env) : Refines (eval e env) (Spec.evaluate e env) :=
+theorem eval_refines_spec (e : Expr) (env : Env) (hwf : env.WF) (hl : e.LitsWF) (hp : e.PatternsWF) :
+    Refines (eval e env) (Spec.evaluate e env) :=
   eval_refines cedarDates e env hwf
-    (nodeOK_of cedarDates env e hl hp (Expr.All_mono (fun x hx => dateOK_of_safe env x hx) e hd))
+    (nodeOK_of cedarDates env e hl hp (Expr.All_mono (fun x _ => dateOK_cedarDates env x) e hl))
 
 theorem ofName_toDate : Spec.ExtFun.ofName? "toDate" = some .toDate := by decide +kernel
 theorem ofName_toTime : Spec.ExtFun.ofName? "toTime" = some .toTime := by decide +kernel
